@@ -49,6 +49,10 @@ CHECKS = {
   "Per generated scenario (schema build, write per codec in path/FILE* mode, open+metadata+reads+skip in three transports, batch reads) a dry run numbers the K tracked allocation requests made inside API calls (carquet, zlib, zstd) and request k is failed for every k, plus every fopen and ZSTD_createDCtx returning NULL; thorough tier adds seeded multi-failure runs. Oracle: error reported or effect identical to the fault-free run, correct prefix before an error, handles still releasable, ledger empty, no sanitizer report.",
   "Trusted: link-time malloc/calloc/realloc/free/strdup wrappers over ASan's allocator (ledger exact and deterministic), statically linked zlib/zstd so their requests are numbered too. Allocations of the process-lifetime per-thread ZSTD context are not fault sites.",
   "deterministic simulation: k-th allocation failure enumeration per seeded scenario with exact leak ledger", "7 C19"),
+ "C14": ("fault_enumeration",
+  "Per generated image every page body is damaged in turn (every bit, every byte, a burst at every byte offset) and read back through the three transports with verification on: no row of the damaged page may be delivered, what is delivered before is a correct prefix, and the read must end in an error; the undamaged image must verify (CRCs written by carquet and, on peer files, by zlib); a sample of damages is re-read with verification off under ASan (safety only) and through the batch reader. Exhaustive per image in the thorough tier, rotating transports per bit in the quick tier.",
+  "Trusted: peer reader's page map (body offsets, first entry per page), zlib crc32 on the peer side. The CRC function for arbitrary lengths/alignments and carquet_crc32_update composition are pure and only decided as far as the file layer computes CRCs.",
+  "deterministic simulation: storage bit-rot enumeration inside every page body x 3 transports", "7 C14"),
 }
 def chk(pid):
     cat,text,note,tech,ref = CHECKS[pid]
